@@ -7,6 +7,7 @@ EXTREMES = "seqs"   # worker re-labels every sixth case to the ends of the legal
 SHUFFLE = "seqs"    # worker: every seventh case is built by add_absolute_message in shuffled order
 CANONICAL_ABS = True   # the function under test pairs / merges over the canonically sorted list (oracle.abs_order)
 SPLIT_WAITS = "seqs"   # worker: every fifth case is built from relative messages with rests split into adjacent waits
+SCALE = True   # worker: every fortieth case is blown up by scale_case below
 PROP = "C15"
 MONITORS = ["merge"]
 INSITU = {"k": "merge or load or composition or tokenisation"}
@@ -20,6 +21,27 @@ FLOORS = {"quick": {"merge.fused_notes.armed": 8000, "c15.fusion_happened": 1000
                     "merge.signatures_ts.armed": 3000},
           "thorough": {"merge.fused_notes.armed": 200000, "c15.fusion_happened": 20000}}
 
+
+def scale_case(case, i):
+    if (i // 40) % 2 == 1:
+        # a hocket over 9-20 operands: every part's notes abut the notes of the part before on one key
+        import random
+        r = random.Random(f"c15-hocket:{i}")
+        parts = r.randint(9, 20)
+        seqs = [{"notes": [], "extra": [], "start": r.choice(["abs", "rel", "both"])} for _ in range(parts)]
+        t = 0
+        for k in range(parts * r.randint(2, 4)):
+            ln = r.choice([6, 12, 24])
+            seqs[k % parts]["notes"].append([0, 60 + (k // parts) % 2, t, ln, 1 + k % 127])
+            t += ln
+        case["seqs"] = seqs
+        case["perm"] = list(range(parts)) if r.random() < 0.5 else r.sample(range(parts), parts)
+        case["prefixes"] = [[] for _ in seqs]
+        return
+    for k, sp in enumerate(case["seqs"][:3]):
+        sp["notes"] = gen.big_notes(i * 10 + k, n=[400, 900, 300][k % 3], chans=(0, 1), pitches=(60, 61, 62), lmin=1, lmax=40, gap=(0, 80))
+        sp.pop("pad", None)
+    case["prefixes"] = [[] for _ in case["seqs"]]
 
 def make_case(rng, i, tier):
     k = rng.randint(1, 5)
